@@ -124,6 +124,12 @@ def entryObs (cfg : List String) (ents : List String) (tok : String) : Option St
   | ["F", p, k, l, s, _mode, _mtime, x] => do
     let _ ← x.toNat?
     fileObs cfg p k l s
+  | ["S", p, k, l, s, _mode, _mtime, r] => do
+    -- a node that RECORDS the size `r` (≠ content length: stdin-style nodes, grown / shrunk files): what is read back is the
+    -- content, chunked by its bytes (Props.C07 `chunks_independent_of_recorded_size`)
+    let r ← r.toNat?
+    let l' ← l.toNat?
+    if r = l' then none else fileObs cfg p k l s
   | ["H", p, target] => do
     let (k, l, s) ← findFile ents target
     fileObs cfg p k l s
